@@ -3,13 +3,15 @@ From stdpp Require Import gmap strings sorting.
 From Coq Require Import QArith.
 From EV Require Import Base.Str Model.Value Model.Keyspace Model.Reply Model.Prog Model.ZSetOps Model.ZSetMulti Model.CmdZSet Model.Dispatch.
 From EV Require Import Spec.SpecZSet Proofs.KeyspaceLemmas Proofs.ZSetPure Proofs.ZSetProofs Proofs.DispatchLemmas.
+From EV Require Import Model.CmdZRand Spec.SpecZSetExt Spec.SpecZRand Proofs.ZRandProofs.
 Local Open Scope Z_scope.
 
 (** Commands covered: ZADD ZCARD ZSCORE ZMSCORE ZREM ZINCRBY ZCOUNT ZRANK ZREVRANK ZPOPMIN ZPOPMAX ZRANGE
     ZRANGESTORE ZLEXCOUNT ZREMRANGEBYSCORE ZREMRANGEBYLEX ZREMRANGEBYRANK ZINTER ZINTERSTORE ZUNION
-    ZUNIONSTORE ZDIFF ZDIFFSTORE ZMPOP (24 of the 25; the randomised ZRANDMEMBER is judged by the
-    executable reference only; [run_zset_cmds] answers an error for every other command word, and so does
-    [spec_zset]).
+    ZUNIONSTORE ZDIFF ZDIFFSTORE ZMPOP by the theorems over [run_zset_cmds] / [spec_zset]; all 25 with
+    ZRANDMEMBER, for every resolution of its random choice, by the [..._all] theorems over
+    [run_zset_r_cmds pick] / [spec_zset_r pick] further down ([run_zset_cmds] answers an error for every
+    other command word, and so does [spec_zset]).
 
     The full statement: for every finite sequence of argument vectors (any command word, arity, bytes),
     from every state of the keyspace (any pre-existing types, deadlines, databases) without a memory
@@ -47,6 +49,63 @@ Theorem C17_refines_static : forall cmds s d,
   rs = rs' /\ zview s' d = m' /\ st_maxmem s' = 0.
 Proof. intros cmds s d Hm Hs. apply zset_script_refines; [done|]. by apply static_free_kf_free. Qed.
 Print Assumptions C17_refines_static.
+
+(** * All 25 handlers: ZRANDMEMBER included, for every resolution of the random choice.
+
+    [pick] stands for [SortedSet.GetRandom]'s draw: any function from the set and the count to a list of
+    members.  The same [pick] resolves the choice in the model handler and in the reference, so the
+    statements hold for every resolution; [C17_zrandmember_accepted] says that every resolution that is a
+    possible draw ([valid_zpick]: |count| members of the set with their scores, distinct for a positive
+    count) gives a reply that the acceptance oracle (runner modes spec17 / spec17p, which judge the
+    implementation's ZRANDMEMBER replies) accepts; [C17_every_draw_is_a_resolution] that every possible draw
+    is the reply under some valid resolution; [C17_default_pick_valid] that the executable model's is one. *)
+Theorem C17_refines_all_as_pinned : forall pick cmds s d,
+  st_maxmem s = 0 ->
+  let '(s', rs) := run_zset_r_cmds pick d cmds s in
+  let '(m', rs') := spec_zset_r_run pick false (zview s d) cmds in
+  rs = rs' /\ zview s' d = m' /\ st_maxmem s' = 0.
+Proof. exact zset_r_script_refines_pinned. Qed.
+Print Assumptions C17_refines_all_as_pinned.
+
+Theorem C17_refines_all : forall pick cmds s d,
+  st_maxmem s = 0 -> kf_free_r pick (zview s d) cmds = true ->
+  let '(s', rs) := run_zset_r_cmds pick d cmds s in
+  let '(m', rs') := spec_zset_r_run pick true (zview s d) cmds in
+  rs = rs' /\ zview s' d = m' /\ st_maxmem s' = 0.
+Proof. exact zset_r_script_refines. Qed.
+Print Assumptions C17_refines_all.
+
+Theorem C17_zrandmember_accepted : forall pick m argv,
+  valid_zpick pick ->
+  fst (spec_zrandmember m argv) = m /\ fst (spec_zrand pick m argv) = m /\
+  zrand_judge (snd (spec_zrandmember m argv)) (snd (spec_zrand pick m argv)).
+Proof. exact zrand_reference_agrees. Qed.
+Print Assumptions C17_zrandmember_accepted.
+
+Theorem C17_every_draw_is_a_resolution : forall z c l,
+  Z.abs c < zcard z -> zrand_ok z c l -> exists pick, valid_zpick pick /\ zrand_select pick z c = l.
+Proof. exact every_selection_is_a_resolution. Qed.
+Print Assumptions C17_every_draw_is_a_resolution.
+
+Theorem C17_default_pick_valid : valid_zpick default_zpick.
+Proof. exact default_zpick_valid. Qed.
+Print Assumptions C17_default_pick_valid.
+
+Theorem C17_zrandmember_pure : forall pick c rest s d,
+  st_maxmem s = 0 -> lower c = "zrandmember"%string ->
+  zview (fst (exec_zset_r pick d (c :: rest) s)) d = zview s d.
+Proof. exact zrandmember_pure. Qed.
+Print Assumptions C17_zrandmember_pure.
+
+Theorem C17_error_changes_nothing_all : forall pick argv s d,
+  st_maxmem s = 0 -> snd (exec_zset_r pick d argv s) = RErr -> same_view s (fst (exec_zset_r pick d argv s)).
+Proof. exact zset_r_error_changes_nothing. Qed.
+Print Assumptions C17_error_changes_nothing_all.
+
+Theorem C17_frame_all : forall pick argv s d,
+  st_maxmem s = 0 -> zset_frame s (fst (exec_zset_r pick d argv s)) d.
+Proof. exact zset_r_step_frame. Qed.
+Print Assumptions C17_frame_all.
 
 Definition one_zset (k : string) (z : zmap) : state :=
   fst (run_seq 0 (SetValues [(k, VZSet z)] (fun _ => Ret tt)) (init_state 5)).
@@ -216,4 +275,26 @@ Example C17_example :
      RInt 2; RInt 2; RErr;
      RArr [RArr [RBulk "x"; RFloat (FFin 2)]; RArr [RBulk "w"; RFloat (FFin 4)]; RArr [RBulk "y"; RFloat (FFin 4)]];
      RInt 2; RArr [RArr [RBulk "x"]]]%string.
+Proof. vm_compute. done. Qed.
+
+(** The dispatcher runs [handle_zrandmember] with the executable model's selection for ZRANDMEMBER. *)
+Theorem C17_dispatch_zrandmember : forall w c rest,
+  lower c = "zrandmember"%string ->
+  exec_cmd w 0 (c :: rest) =
+  (let '(s', r) := exec_zset_r default_zpick (conn_db w 0) (c :: rest) (w_st w) in (World s' (w_conns w), r)).
+Proof.
+  intros w c rest Hc.
+  rewrite (exec_cmd_runs_handler w 0 (c :: rest) c (handle_zrandmember default_zpick) eq_refl); [|by rewrite Hc].
+  unfold exec_zset_r. rewrite Hc. reflexivity.
+Qed.
+Print Assumptions C17_dispatch_zrandmember.
+
+(** Non-vacuity for ZRANDMEMBER: whole set for |count| >= 3, a selection otherwise, nil, errors. *)
+Example C17_example_zrandmember :
+  let s0 := one_zset "a" (list_to_map [("x", FFin 1); ("y", FFin 2); ("w", FFin 1)]%string) in
+  snd (run_zset_r_cmds default_zpick 0
+         [["ZRANDMEMBER"; "a"]; ["ZRANDMEMBER"; "a"; "-2"; "withscores"]; ["ZRANDMEMBER"; "a"; "-7"];
+          ["ZRANDMEMBER"; "nokey"; "2"]; ["ZRANDMEMBER"; "nokey"; "x"]; ["ZRANDMEMBER"; "a"; "1"; "nope"]]%string s0) =
+    [RArr [RArr [RBulk "w"]]; RArr [RArr [RBulk "w"; RFloat (FFin 1)]; RArr [RBulk "w"; RFloat (FFin 1)]];
+     RArr [RArr [RBulk "w"]; RArr [RBulk "x"]; RArr [RBulk "y"]]; RNil; RErr; RErr]%string.
 Proof. vm_compute. done. Qed.
